@@ -28,9 +28,10 @@ def main():
     ap.add_argument("--suite-retries", type=int, default=2)
     ap.add_argument("--extra", default="", help="comma separated helper files the demo needs, copied next to it")
     ap.add_argument("--tier", default="quick")
-    ap.add_argument("--phase", default="both", choices=["both", "confirm", "check"])
+    ap.add_argument("--phase", default="both", choices=["both", "confirm", "check", "keep"])
+    ap.add_argument("--src-root", default="/tmp/seed", help="where the sub-agents' worktrees are (<root>/<ID>/out/<i>/)")
     a = ap.parse_args()
-    src = "/tmp/seed/%s/out/%s" % (a.id, a.i)
+    src = "%s/%s/out/%s" % (a.src_root, a.id, a.i)
     patch = os.path.join(src, "patch.diff")
     res = {"property": a.id, "change": a.i, "ran_at": time.strftime("%Y-%m-%dT%H:%M:%SZ", time.gmtime())}
     global SCR
@@ -100,18 +101,23 @@ def main():
     json.dump(res, open(confirm_file, "w"), indent=1)
     if a.phase == "confirm":
         return
+    if a.phase == "keep" and not (res["build_ok"] and suite_ok and res["demo_fails_with_change"] and res["demo_passes_without_change"]):
+        print("NOT CONFIRMED - not kept"); return
     return check_phase(a, res, src, patch, dstdir, demo_name, cmd, extras)
 
 
 def check_phase(a, res, src, patch, dstdir, demo_name, cmd, extras):
-    # 2. our checks against the change
-    rc, out = sh("git -C /repo status --short")
-    if out.strip():
-        print("/repo not clean:", out); sys.exit(2)
-    rc, out = sh("git -C /repo apply %s" % patch)
-    if rc: print("apply to /repo failed", out); sys.exit(2)
+    # 2. our checks against the change ("keep": only store the confirmed change, the
+    #    checks are run by seeded_par.py in scratch worktrees)
     runs = []
+    if a.phase != "keep":
+        rc, out = sh("git -C /repo status --short")
+        if out.strip():
+            print("/repo not clean:", out); sys.exit(2)
+        rc, out = sh("git -C /repo apply %s" % patch)
+        if rc: print("apply to /repo failed", out); sys.exit(2)
     try:
+      if a.phase != "keep":
         for cid in [a.id] + [x for x in a.also.split(",") if x]:
             for s in a.seeds.split():
                 t0 = time.time()
@@ -122,7 +128,8 @@ def check_phase(a, res, src, patch, dstdir, demo_name, cmd, extras):
                 if rc == 1 and cid == a.id:
                     break
     finally:
-        sh("git -C /repo checkout -- .")
+        if a.phase != "keep":
+            sh("git -C /repo checkout -- .")
     res["check_runs"] = runs
     res["detected_by"] = sorted({r["check"] for r in runs if r["exit"] == 1})
     if src != dstdir:
